@@ -48,7 +48,7 @@ class OrigMotl(Motl):
 
     def get_motl_subset(self, feature_values, feature_id="tomo_id", return_df=False, reset_index=True):
         if isinstance(feature_values, (list, np.ndarray)):
-            feature_values = np.array(feature_values)
+            feature_values = np.atleast_1d(np.array(feature_values))  # a 0-d array is one value
         else:
             feature_values = np.array([feature_values])
 
